@@ -449,6 +449,23 @@ fn plan16(seed: u64, run: u64, tier: Tier) -> Plan16 {
             ops.push(Op::Hop { r, f, s: first + i });
         }
     }
+    // round s - big files (>= 32 KiB: a size past which a rewriter might take another path) through two rewriters
+    // with disjoint method sets, literal report off; in one order here, in the other order in another run, and in
+    // sorted order in the fresh process (what the first big file of a process leaves behind must not decide the others)
+    if run % 12 == 0 || run % 12 == 8 {
+        let ra = rewriters.len();
+        rewriters.push(RwSpec { cfg: json!({"chainSourceMap": false, "comments": false, "localVarPrefix": "biga", "telemetryVerbosity": "OFF", "literals": false, "csiMethods": [{"src": "substring"}]}), prng_seed: 7 });
+        rewriters.push(RwSpec { cfg: json!({"chainSourceMap": false, "comments": false, "localVarPrefix": "bigb", "telemetryVerbosity": "OFF", "literals": false, "csiMethods": [{"src": "plusOperator", "operator": true}]}), prng_seed: 7 });
+        let filler: String = (0..(1400 + side.below(600))).map(|i| format!("var filler{} = {};\n", i, i)).collect();
+        let sa = sources.len();
+        sources.push(Src { kind: "modified+big-substring-only".into(), text: format!("{}function bigA(a) {{ return a.substring(1); }}\n", filler) });
+        sources.push(Src { kind: "modified+big-plus-only".into(), text: format!("{}function bigB(a, b) {{ const r = a - b; return a + b; }}\n", filler) });
+        let f = side.below(files.len());
+        let order = if run % 12 == 0 { [(ra, sa), (ra + 1, sa + 1)] } else { [(ra + 1, sa + 1), (ra, sa)] };
+        for (r, s) in order.iter().chain(order.iter()) {
+            ops.push(Op::Call { r: *r, f, s: *s, chunk: 0, eintr: 0, lat: 0 });
+        }
+    }
     let oneshot = match tier {
         Tier::Quick => run % 4 == 0,
         Tier::Thorough => true,
